@@ -88,8 +88,16 @@ fn gen_stream(cfg: &Cfg, seed: u64, tier: &str) -> Plan {
         }
     }
     // a reliable reader only matches a reliable writer; wait for what will match
-    for (w, _) in &writers {
-        setup.push(Op::WaitMatched { kind: "writer".into(), id: *w, n: 1, timeout_ms: 20_000 });
+    // every compatible pair must be matched (seen from the writer) before the workload starts:
+    // a VOLATILE reader matched after a write legitimately does not get that sample
+    let wrel: Vec<bool> = setup.iter().filter_map(|o| if let Op::CreateWriter { q, .. } = o { Some(q.reliable == Some(true)) } else { None }).collect();
+    for (i, (w, _)) in writers.iter().enumerate() {
+        let n = readers.iter().filter(|(_, rrel)| !(*rrel && !wrel[i])).count() as i32;
+        setup.push(Op::WaitMatched { kind: "writer".into(), id: *w, n, timeout_ms: 30_000 });
+    }
+    for (rd, rrel) in &readers {
+        let n = wrel.iter().filter(|w| !(*rrel && !**w)).count() as i32;
+        setup.push(Op::WaitMatched { kind: "reader".into(), id: *rd, n, timeout_ms: 30_000 });
     }
     setup.push(Op::Sleep { us: 300_000 });
     setup.push(Op::Mark { label: "setup-done".into() });
